@@ -23,7 +23,7 @@ NAMES = ['x10', 'x2', 'x1', 'x21', 'y', 'y1', 'z3', 'w', 'A', 'b_', 'a12', 'a1',
 # numeric evaluation carries explicit zeros): the second step must treat "no blades" like zero
 TWO_STEP = {'x:(a^a)-b': lambda a, b: (a ^ a) - b, 'x:(a-a)-b': lambda a, b: (a - a) - b, 'x:a.cp(a)+b': lambda a, b: a.cp(a) + b,
             'x:b-(a-a)': lambda a, b: b - (a - a), 'x:(a^a)*b+b': lambda a, b: (a ^ a) * b + b, 'x:(a*b-a*b)-a': lambda a, b: (a * b - a * b) - a}
-ALLOPS = ops.BINARY + ops.UNARY + ['norm'] + list(TWO_STEP)
+ALLOPS = ops.BINARY + ops.UNARY + ['norm', 'exp'] + list(TWO_STEP)
 
 
 def floors(tier):
@@ -97,6 +97,10 @@ def one_case(ctx, alg, cfg, name, op, force_keysets=None):
     elif op == 'norm':
         pos = [k for k in canon if k and alg.signs[k, k] * (-1) ** ((bin(k).count('1') * (bin(k).count('1') - 1)) // 2) > 0]
         keysets = [(rng.choice(pos),)] if pos else [(0,)]
+    elif op == 'exp':
+        # a single non-scalar blade squares to a scalar in every algebra: exp is defined
+        nonsc = [k for k in canon if k]
+        keysets = [(rng.choice(nonsc),)]
     elif op == 'sqrt':
         nonsc = [k for k in canon if k]
         keysets = [(0, rng.choice(nonsc))]
@@ -110,7 +114,9 @@ def one_case(ctx, alg, cfg, name, op, force_keysets=None):
     if force_keysets is not None:
         keysets = [tuple(k) for k in force_keysets]
         ctx.count('same_blades_other_key_order_followups')
-    mode = rng.choice(['mixed', 'mixed', 'mixed', 'allsym', 'strings', 'shared', 'symnum', 'negpairs'])
+    mode = rng.choice(['mixed', 'mixed', 'mixed', 'allsym', 'strings', 'shared', 'symnum', 'negpairs', 'funcs'])
+    if mode == 'funcs' and (composite or op in ('sqrt', 'norm', 'exp')):
+        mode = 'mixed'      # function-valued coefficients only through the polynomial operators (exact comparison up to float rounding)
     if mode == 'shared' and arity == 2:
         keysets[1] = keysets[0] if (graded or rng.random() < 0.7) else gen.permuted(rng, keysets[0])     # graded mode: canonical order only
     names = rng.sample(NAMES, sum(len(k) for k in keysets))
@@ -130,7 +136,18 @@ def one_case(ctx, alg, cfg, name, op, force_keysets=None):
                 kind = 'symnum'        # a sympy Rational as coefficient: a sympy object without free symbols
             if mode == 'negpairs':
                 kind = 'negpair'
-            if kind == 'sym':
+            if mode == 'funcs' and rng.random() < 0.6:
+                kind = 'func'
+            if kind == 'func':
+                # a coefficient that is an elementary function of a symbol: cos(t), sin(t), exp(t), t*cos(t)
+                import math
+                fname = rng.choice(('cos', 'sin', 'exp', 'tcos', 'cosh'))
+                tsym = sympy.Symbol(nm)
+                sv.append({'cos': sympy.cos(tsym), 'sin': sympy.sin(tsym), 'exp': sympy.exp(tsym), 'tcos': tsym * sympy.cos(tsym), 'cosh': sympy.cosh(tsym)}[fname])
+                point[nm] = val
+                fv = float(val)
+                nv.append({'cos': math.cos(fv), 'sin': math.sin(fv), 'exp': math.exp(fv), 'tcos': fv * math.cos(fv), 'cosh': math.cosh(fv)}[fname])
+            elif kind == 'sym':
                 sv.append(sympy.Symbol(nm))
                 point[nm] = val
                 nv.append(val)
@@ -184,6 +201,8 @@ def one_case(ctx, alg, cfg, name, op, force_keysets=None):
     def apply_op(*mvs):
         if op == 'norm':
             return mvs[0].norm()
+        if op == 'exp':
+            return mvs[0].exp()
         if op in TWO_STEP:
             return TWO_STEP[op](*mvs)
         return ops.call_op(alg, op, *mvs)
@@ -206,7 +225,7 @@ def one_case(ctx, alg, cfg, name, op, force_keysets=None):
         return
     want = mv_dict(rn)
     ctx.count('op_' + op)
-    ctx.count({'mixed': 'mixed_partitions', 'allsym': 'all_symbolic', 'strings': 'string_coefficients', 'shared': 'shared_symbol_operands', 'symnum': 'sympy_number_coefficients', 'negpairs': 'negated_pair_coefficients'}[mode]
+    ctx.count({'mixed': 'mixed_partitions', 'allsym': 'all_symbolic', 'strings': 'string_coefficients', 'shared': 'shared_symbol_operands', 'symnum': 'sympy_number_coefficients', 'negpairs': 'negated_pair_coefficients', 'funcs': 'function_valued_coefficients'}[mode]
               if mode != 'mixed' or any('num' in p for p in partition) else 'all_symbolic')
     ctx.case(cid)
     if ctx.evaluations % 60 == 1:
@@ -220,6 +239,9 @@ def one_case(ctx, alg, cfg, name, op, force_keysets=None):
     if dropped:
         ctx.count('blades_dropped_by_simplification_recorded', len(dropped))
 
+    # transcendental functions take floats, not Fractions
+    cv = (lambda v: float(v)) if mode == 'funcs' else (lambda v: v)
+
     def compare(label, got):
         bad = elem_diff(mv_dict(got), want)
         if bad:
@@ -230,7 +252,7 @@ def one_case(ctx, alg, cfg, name, op, force_keysets=None):
     if free:
         kw_order = list(fnames)
         rng.shuffle(kw_order)       # keywords bind by name, whatever order the caller writes them in
-        st1, g1 = ctx.guarded(to, lambda: rs(**{n: point[n] for n in kw_order}))
+        st1, g1 = ctx.guarded(to, lambda: rs(**{n: cv(point[n]) for n in kw_order}))
         if st1 == 'ok':
             ctx.count('keyword_calls_compared')
             compare('keyword call', g1)
@@ -238,7 +260,7 @@ def one_case(ctx, alg, cfg, name, op, force_keysets=None):
             ctx.note_raised(g1, 'kwcall')
             if not isinstance(g1, ZeroDivisionError):
                 ctx.violation('calling the symbolic result raises', cid + ['kw'], error=repr(g1)[:200], free_symbols=fnames, **wit)
-        st2, g2 = ctx.guarded(to, lambda: rs(*[point[n] for n in fnames]))
+        st2, g2 = ctx.guarded(to, lambda: rs(*[cv(point[n]) for n in fnames]))
         if st2 == 'ok':
             ctx.count('positional_calls_compared')
             compare('positional call in name order', g2)
@@ -250,7 +272,7 @@ def one_case(ctx, alg, cfg, name, op, force_keysets=None):
         fs = sorted(getattr(xsym, 'free_symbols', ()), key=lambda s: s.name)
         if not fs:
             continue
-        stc, gc = ctx.guarded(to, lambda: xsym(**{s.name: point[s.name] for s in fs}))
+        stc, gc = ctx.guarded(to, lambda: xsym(**{s.name: cv(point[s.name]) for s in fs}))
         if stc == 'ok':
             ctx.count('operand_calls_compared')
             if tuple(xsym.keys()) != tuple(sorted(xsym.keys())):
